@@ -58,6 +58,7 @@ type Run struct {
 
 func NewRun(p *Prog, property, tier string) *Run {
 	curProg = p
+	autoExpanders = map[ast.Node]func(e ast.Expr) ast.Expr{}
 	p.resolveAliases()
 	factCallExpand = func(call *ast.CallExpr, val bool) []condFact {
 		info := p.InfoAt(call.Pos())
